@@ -5,6 +5,7 @@ SPEC = {
         {"pkg": "internal/corerad", "test": "TestVerifC10TD", "newgo": True, "timeout": 1500, "corr_module": "Corr.C10td"},
         {"pkg": "internal/corerad", "test": "TestVerifC10RX", "newgo": True, "timeout": 1500, "corr_module": "Corr.C10td"},
         {"pkg": "internal/system", "test": "TestVerifC10dial", "newgo": True, "timeout": 1500, "corr_module": "Corr.C10dial"},
+        {"pkg": "internal/system", "test": "TestVerifC10link", "newgo": True, "timeout": 900, "corr_module": "Corr.C10link"},
     ],
     "rule": "(a) every fault class {read error: syscall / permission / other, 5 consecutive timeouts, failing scheduled write: "
             "syscall / permission / other, link event, watcher channel closed} injected into a running Advertiser and Monitor "
@@ -13,11 +14,11 @@ SPEC = {
             "scheduler is waiting; observed: reaction (re-dial / return error / continue), its virtual delay, I/O on the old "
             "connection afterwards, a canary solicitation, leaked goroutines. (b) scripts of timeouts / messages / errors read by "
             "a Monitor: the instants of its ReadFrom calls give the back-off waits. (c) Dialer.Dial with scripted dial and task "
-            "outcomes (Corr.C10dial). Non-trivial: any case (each injects a fault or a timeout run); distinct by input.",
+            "outcomes (Corr.C10dial). (d) the real checkInterface / isNoSuchInterface / lookupInterface / sysctlBool on generated interface states: flags, 0..5 addresses of every class (fe80::/10 edges, IPv4 link-local in 4-byte and IPv4-mapped form, wrong-length slices, non-IPNet types), address-query errors of every class, host interface names, sysctl file contents (Corr.C10link). Non-trivial: any case (each injects a fault or a timeout run); distinct by input.",
     "nontrivial": lambda c: c.get("_driver") != "TestVerifC10dial" or len(c.get("observed") or []) > 3,
     "trusted": ["the goroutine-group LTS (Model/Group.v) is tied to the code by the five extracted guards only (gen/ExtGroup.v: select cases next to <-ctx.Done(), ws.stop() before returns, cancel() before eg.Wait()) and by the fault-injection runs; its atomic steps are the blocking points",
                 "a WriteTo call in progress eventually returns (internal step of the LTS)"],
     "assumptions": ["fairness: the Go scheduler eventually runs an enabled goroutine; the LTS theorem is over every interleaving but assumes enabled internal steps are eventually taken"],
-    "level_text": "Theorems (Coq): (a) LTS of the advertiser's goroutine group with guards extracted from the source: every reachable state satisfies the invariant; once the group's context is cancelled every continuation (any interleaving, arrivals, failures) reaches 'all members returned' within measure(s) steps and until then an internal step is always enabled (no deadlock); afterwards nothing is read/written and no worker starts; the two repaired defects are proved to be reachable deadlocks of the same LTS with the old guards. (b) receive retry: waits 0,50,100,150 ms, the 5th consecutive timeout is an error after 200 ms, any message resets. (c) dialer policy/back-off (C10dial). Tie: goextract guards + fault injection into the real Advertiser/Monitor under virtual time + scripted Dialer runs.",
+    "level_text": "Theorems (Coq): (a) LTS of the advertiser's goroutine group with guards extracted from the source: every reachable state satisfies the invariant; once the group's context is cancelled every continuation (any interleaving, arrivals, failures) reaches 'all members returned' within measure(s) steps and until then an internal step is always enabled (no deadlock); afterwards nothing is read/written and no worker starts; the two repaired defects are proved to be reachable deadlocks of the same LTS with the old guards. (b) receive retry: waits 0,50,100,150 ms, the 5th consecutive timeout is an error after 200 ms, any message resets. (c) dialer policy/back-off (C10dial). (d) link readiness (C10link): the check passes iff the interface is up and owns a 16-byte IPNet address in fe80::/10, otherwise link-not-ready (or the address query's error, class intact); a missing / down / address-less interface makes Dialer.dial fail with the recoverable class before anything is opened. Tie: goextract guards + fault injection into the real Advertiser/Monitor under virtual time + scripted Dialer runs.",
     "level_note": "Trusted: Coq kernel + vm_compute; goextract (guards, retries, back-off unit, dialer constants); Go drivers, fake Conn, synctest; LTS atomicity = blocking points (data races out of reach).",
 }
